@@ -291,9 +291,27 @@ func c09Containment(c *core.Ctx, fd *core.FuncDecl) (bool, string) {
 				id, ok := ast.Unparen(e).(*ast.Ident)
 				return ok && info.Uses[id] == keys
 			}) == -1
+			// ... and the list tested is the caller's, not a filtered replacement
+			if zero {
+				ast.Inspect(fd.Decl.Body, func(n ast.Node) bool {
+					switch x := n.(type) {
+					case *ast.AssignStmt:
+						for _, l := range x.Lhs {
+							if id, ok := ast.Unparen(l).(*ast.Ident); ok && (info.Uses[id] == keys || info.Defs[id] == keys) && x.Pos() < r.Pos() {
+								zero = false
+							}
+						}
+					case *ast.UnaryExpr:
+						if id, ok := ast.Unparen(x.X).(*ast.Ident); ok && x.Op == token.AND && info.Uses[id] == keys {
+							zero = false
+						}
+					}
+					return true
+				})
+			}
 			if !zero {
 				allOK = false
-				why = fmt.Sprintf("success at %s relies on an unverified payload although keys may have been supplied", p.Rel(r.Pos()))
+				why = fmt.Sprintf("success at %s relies on an unverified payload although keys may have been supplied (the test must be on the caller's own key list)", p.Rel(r.Pos()))
 				c.Ob("C09-R2", key, r.Pos(), false, why)
 				continue
 			}
